@@ -9,9 +9,9 @@ import classes as CL
 import msym
 from common import Inconclusive, run_replay, run_replay_parallel
 from fixedlib import (OPT_JSON, OPTS, VC_A, compare_fixed_step, fixed_state, key_name, mk_config, mk_fixed,
-                      native_fixed_step, opts_json, render_suggestion, validate_witnesses)
+                      native_fixed_step, opts_json, pending_value, render_suggestion, struct_of, validate_witnesses)
 from mirsym.interp import PanicPath
-from mirsym.values import Agg, Opaque, Ref, SString, bv, is_sym, simp
+from mirsym.values import Agg, Opaque, Ref, SMap, SString, SVec, bv, is_sym, simp
 from msym import model_string, model_value
 
 REPH = (0x09B0, 0x09CD)
@@ -1552,6 +1552,184 @@ def make_layout_key(shape, prop_fn=None, constrain=None):
     return build, on_path
 
 
+def make_layout_table(shape):
+    """The layout as the crate's own `Layout::parse` builds it from the file content (the JSON -> map conversion is the oracle: the file
+    assigns text to the two planes of ONE key - each absent, empty or any 1-2 code points - and to nothing else), then one key press on an
+    idle method with all helpers off. Independent of how the crate stores the layout."""
+    name, code, stem, kind = shape["row"]
+    others = shape.get("others")
+
+    def build(st, it):
+        prog = it.p
+        key = st.sym_bv("key", 16)
+        mod = st.sym_bv("modifier", 8)
+        if others is not None:
+            st.assume(z3.Or([key == c for c in [code] + list(others)]))
+        names = ["Key_%s_Normal" % stem, "Key_%s_AltGr" % stem] if kind == "key" else [stem]
+        entries = {}
+
+        def from_value(it2, args, callee):
+            from mirsym.values import ok
+            pairs = []
+            for i, nm in enumerate(names):
+                ab = z3.Bool("entry%d_absent" % i)
+                ln = z3.BitVec("entry%d_len" % i, 8)
+                k = it2.st.choose([ab, z3.And(z3.Not(ab), ln == 0), z3.And(z3.Not(ab), ln == 1), z3.And(z3.Not(ab), ln == 2)])
+                if k == 0:
+                    entries[nm] = None
+                    continue
+                val = [it2.st.sym_char("e%d_%d" % (i, j)) for j in range(k - 1)]
+                entries[nm] = val
+                pairs.append([key_name(nm), SString(val)])
+            # one unrelated entry, so that "the map is empty" is not what makes other keys silent
+            pairs.append([key_name("Key_zz_Normal"), SString([0x78])])
+            return ok(SMap("layout", pairs))
+        it.env["overrides"] = {"from_value": from_value}
+        fixed = {o: False for o in OPTS}
+        del fixed["fixed_numpad"]
+        cfg, opts = mk_config(prog, st, fixed)
+        st.ctx = dict(key=key, mod=mod, opts=opts, entries=entries, shape=shape)
+        fn = prog.find_trait_fn("FixedMethod", "Method", "get_suggestion")
+        parse = prog.find_fn("Layout", "parse")
+
+        def run():
+            lay = it.call_function(parse, [Opaque("serde_json::Value")])
+            if not (isinstance(lay, Agg) and lay.kind == "adt:Option" and lay.variant == 1):
+                raise PanicPath("Layout::parse returned None for a well-formed layout object")
+            fm = struct_of(prog, "FixedMethod", {"buffer": SString([]), "typed": SString([]), "pending_kar": pending_value(prog, None),
+                                                 "suggestions": SVec([]), "layout": lay.fields[0]}, st=st)
+            st.ctx["fm"] = fm
+            return it.call_function(fn, [Ref([fm], 0, True), key, mod, st.sym_bv("selection", 8), Ref([Opaque("Data")], 0), Ref([cfg], 0)])
+        return run
+
+    def inputs(model, c):
+        lay = {nm: model_string(model, v) for nm, v in c["entries"].items() if v is not None}
+        lay["Key_zz_Normal"] = "x"
+        return dict(key=int(model_value(model, c["key"])), mod=int(model_value(model, c["mod"])), numpad=bool(model_value(model, c["opts"]["fixed_numpad"])), layout=lay, asked=[])
+
+    def predicted(prog, model, c, out):
+        if out[0] == "panic":
+            return dict(panic=out[1].message)
+        return dict(state=fixed_state(prog, model, c["fm"]), ret=render_suggestion(prog, model, out[1]))
+
+    def on_path(st, it, out):
+        prog = it.p
+        c = st.ctx
+        model = st.get_model()
+        recs = [dict(kind="witness", inputs=inputs(model, c), predicted=predicted(prog, model, c, out))]
+        if out[0] == "panic":
+            recs.append(dict(kind="violation", clause="no_panic", inputs=inputs(model, c), predicted=predicted(prog, model, c, out)))
+            return recs
+        key, mod = c["key"], c["mod"]
+        altgr = (mod & 2) != 0
+        numpad = zb(c["opts"]["fixed_numpad"])
+        buf = fm_field(prog, c["fm"], "buffer").elems
+        ret = out[1]
+        single = prog.enums["Suggestion"]["Single"]
+        txt = ret.fields[prog.enum_fields[("Suggestion", "Single")].index("suggestion")].elems if ret.variant == single else None
+        clauses = []
+        if txt is None:
+            clauses.append(("returns_single_string", False))
+        else:
+            nothing = z3.BoolVal(len(buf) == 0 and len(txt) == 0)
+
+            def emits(val):
+                if val is None or len(val) == 0:
+                    return nothing, z3.BoolVal(False)
+                silent = zin(val[0], CL.KARS + CL.RARE) if len(val) >= 2 else z3.BoolVal(False)
+                return z3.Or(silent, z3.And(seq_eq(buf, val), seq_eq(txt, val))), z3.Not(silent)
+            if kind == "key":
+                en, cn = emits(c["entries"].get("Key_%s_Normal" % stem))
+                ea, ca = emits(c["entries"].get("Key_%s_AltGr" % stem))
+                want = z3.If(key == code, z3.If(altgr, ea, en), nothing)
+                clauses.append(("cover:emits", z3.And(key == code, z3.If(altgr, ca, cn))))
+            else:
+                e1, c1 = emits(c["entries"].get(stem))
+                want = z3.If(z3.And(key == code, numpad), e1, nothing)
+                clauses.append(("cover:emits", z3.And(key == code, numpad, c1)))
+                clauses.append(("cover:numpad_off_inert", z3.And(key == code, z3.Not(numpad))))
+            clauses.append(("key_emits_exactly_what_the_file_assigns", want))
+            clauses.append(("cover:inert", key != code))
+        for cname, formula in clauses:
+            if cname.startswith("cover:"):
+                if formula is True or (formula is not False and st.feasible(formula)):
+                    recs.append(dict(kind="cover", name=cname))
+                continue
+            neg = z3.Not(formula)
+            st.solver.push()
+            st.solver.add(neg)
+            if st._check(None):
+                m2 = st.solver.model()
+                recs.append(dict(kind="violation", clause=cname, inputs=inputs(m2, c), predicted=predicted(prog, m2, c, out)))
+            st.solver.pop()
+        return recs
+    return build, on_path
+
+
+def obl_layout_table(check, thorough=False, budget_s=None):
+    from common import keyname_spec, published_keys
+    spec = keyname_spec()
+    rows = [(n, c, spec[n][1], spec[n][2]) for n, c in published_keys() if n in spec and spec[n][2] in ("key", "numpad")]
+    shapes = []
+    for i, r in enumerate(rows):
+        # quick: the key itself, the next key of the table, a key outside every layout, an unpublished code; thorough: all 2^16 codes
+        others = None if thorough else [rows[(i + 1) % len(rows)][1], rows[(i + 37) % len(rows)][1], 0x0E1C, 0xFFFF]
+        shapes.append(dict(row=r, others=others))
+    check.bounds["layout_table"] = dict(layout="built by Layout::parse from a file that assigns text to the two planes of one key (each absent / empty / any 1-2 code points) and to one unrelated key; one shape per layout key (%d)" % len(rows),
+                                        key="all 2^16 codes" if thorough else "the key itself, two other layout keys, a published key without a layout entry, an unpublished code",
+                                        modifier="all 2^8 bytes", number_pad_option="symbolic", state="idle, all helpers and suggestions off")
+    records, errors, summ = msym.run_shapes(check, "layout_table", shapes, make_layout_table, budget_s=budget_s)
+    wit = [r for r in records if r["kind"] == "witness"]
+    vio = [r for r in records if r["kind"] == "violation" and (getattr(check, "only_clauses", None) is None or r["clause"] in check.only_clauses)]
+    covers = set(r["name"] for r in records if r["kind"] == "cover")
+    okc, bad = validate_witnesses(check, "layout_table", wit, to_scenario=layout_scenario, compare=layout_compare, cap=2500)
+    detail = "%d layout keys, %d paths, %d witnesses replayed natively (%d agree)" % (len(rows), summ["paths"], min(len(wit), 2500), okc)
+    name = "layout_table"
+    if errors:
+        check.obligation(name, "mirsym", "inconclusive", "executor gave up: " + "; ".join(sorted(set(errors))[:3]))
+        return
+    need = ["cover:emits", "cover:inert", "cover:numpad_off_inert"]
+    if any(n not in covers for n in need):
+        check.obligation(name, "mirsym", "inconclusive", "vacuity: missing reachability witnesses %s" % [n for n in need if n not in covers])
+        return
+    if not vio:
+        if bad:
+            check.obligation(name, "mirsym", "inconclusive", "executor model disagrees with the native build on %d witnesses, e.g. %s | %s" % (
+                len(bad), bad[0][1], json.dumps(bad[0][0]["inputs"], ensure_ascii=False)[:300]))
+            return
+        check.obligation(name, "mirsym", "held", detail + "; every property query unsat")
+        return
+    names = {c: n for n, c in published_keys()}
+    status = "held"
+    worst = {"held": 0, "known": 1, "inconclusive": 2, "violated": 3}
+    groups = {}
+    for v in vio:
+        groups.setdefault("layout table: " + v["clause"], []).append(v)
+    for key, vs in sorted(groups.items()):
+        conf = None
+        for v in vs[:12]:
+            sc = layout_scenario(v["inputs"])
+            res = run_replay([sc])[0]
+            if layout_compare(v, res) is None:
+                conf = (v, sc, res)
+                break
+        if conf is None:
+            st2 = "inconclusive"
+            check.obligation(name + ":" + key, "mirsym", "inconclusive", "counterexample did not reproduce natively: %s" % json.dumps(vs[0]["inputs"], ensure_ascii=False)[:300])
+        else:
+            v, sc, res = conf
+            i = v["inputs"]
+            what = "key %s (0x%04X) modifier %d numpad=%s with layout %s composes %r (%s)" % (
+                names.get(i["key"], "unpublished"), i["key"], i["mod"], i["numpad"], json.dumps(i["layout"], ensure_ascii=False),
+                v["predicted"].get("state", {}).get("buffer"), v["clause"])
+            check.stats["traces_validated"] += 1
+            st2 = check.finding(key + " " + names.get(i["key"], "unpublished"), what, dict(scenario=sc, observed=res["results"][1:], inputs=i))
+            check.sample(dict(obligation=name, counterexample=i, role=key))
+        if worst[st2] > worst[status]:
+            status = st2
+    check.obligation(name, "mirsym", status, detail + "; %d counterexample models" % len(vio))
+
+
 def layout_scenario(inp):
     opts = {"numpad": inp["numpad"]}
     return {"steps": [{"op": "new", "config": {"layout_json": inp["layout"] or {"Key_zz_Normal": "x"}, "opts": opts}},
@@ -1577,6 +1755,12 @@ def layout_compare(w, res):
 
 
 def obl_layout_key(check, budget_s=None):
+    prog, _ = msym.load(check)
+    if "map" not in (prog.structs.get("Layout") or []):
+        # this obligation plants the layout's name -> text map and judges which entry name a key consults: it speaks about one representation.
+        # With another one, `layout_table` (the layout as Layout::parse builds it) carries the property alone.
+        check.obligation("layout_key", "mirsym", "not_applicable", "the Layout struct no longer keeps the file's name -> text map (fields: %s); see layout_table" % prog.structs.get("Layout"))
+        return
     shapes = [dict(published_only=False)]
     check.bounds["layout_key"] = dict(key="all 2^16 codes", modifier="all 2^8 bytes", number_pad_option="symbolic",
                                       layout="oracle: the consulted entry is absent / empty / any 1-2 code points",
